@@ -124,13 +124,13 @@ def fracPart (ds : Str) : Str :=
 def expStr (X : Int) : Str :=
   'e' :: (if X < 0 then '-' else '+') :: (if X.natAbs < 10 then '0' :: natDigits X.natAbs else natDigits X.natAbs)
 
-/-- body of `%.Pg` for a positive magnitude given as scientific decomposition -/
+/-- body of `%.Pg` for a positive magnitude `m · 10^(X-P+1)` (`10^(P-1) ≤ m < 10^P`):
+fixed notation with `P-1-X` decimals iff `-4 ≤ X < P`, else `d.ddd…e±XX`; trailing zeros removed -/
 def gBody (P : Nat) (X : Int) (m : Nat) : Str :=
-  let ds := fixDigits P m
   if -4 ≤ X ∧ X < (P : Int) then
-    if 0 ≤ X then ds.take (X.toNat + 1) ++ fracPart (ds.drop (X.toNat + 1))
-    else '0' :: '.' :: (List.replicate ((-X).toNat - 1) '0' ++ stripZeros ds)
-  else ds.take 1 ++ fracPart (ds.drop 1) ++ expStr X
+    let k := ((P : Int) - 1 - X).toNat
+    natDigits (m / 10 ^ k) ++ fracPart (fixDigits k m)
+  else natDigits (m / 10 ^ (P - 1)) ++ fracPart (fixDigits (P - 1) m) ++ expStr X
 
 def fmtGbody (P : Nat) (x : Rat) : Str :=
   if x = 0 then ['0'] else
@@ -139,30 +139,36 @@ def fmtGbody (P : Nat) (x : Rat) : Str :=
 
 def fmtG (P : Nat) (x : Rat) : Str := fmtGbody (if P = 0 then 1 else P) x
 
+/-- `v · 10^e` -/
+def scale10 (v : Rat) (e : Int) : Rat :=
+  if 0 ≤ e then v * ((10 ^ e.toNat : Nat) : Rat) else v / ((10 ^ (-e).toNat : Nat) : Rat)
+
 /-- the number `%.Pg` prints: `x` rounded to `P` significant digits -/
-def roundSig (P : Nat) (x : Rat) : Rat :=
+def roundSigP (P : Nat) (x : Rat) : Rat :=
   if x = 0 then 0 else
-  let P := if P = 0 then 1 else P
   let r := sci P x.num.natAbs x.den
-  let e : Int := r.1 - (P : Int) + 1
-  let v : Rat := if 0 ≤ e then ((r.2 * 10 ^ e.toNat : Nat) : Rat) else (r.2 : Rat) / ((10 ^ (-e).toNat : Nat) : Rat)
+  let v : Rat := scale10 (r.2 : Rat) (r.1 - (P : Int) + 1)
   if x < 0 then -v else v
+
+def roundSig (P : Nat) (x : Rat) : Rat := roundSigP (if P = 0 then 1 else P) x
 
 /-! ## `float()` on decimal literals -/
 
+def parseDigitsInt (neg : Bool) (r : Str) : Option Int :=
+  if r.isEmpty || !allDigits r then none else some (if neg then -(numOf r : Int) else numOf r)
+
 /-- `[+-]?digits+` → integer -/
 def parseInt (s : Str) : Option Int :=
-  let (neg, r) := match s with
-    | '-' :: r => (true, r)
-    | '+' :: r => (false, r)
-    | _ => (false, s)
-  if r.isEmpty || !allDigits r then none else some (if neg then -(numOf r : Int) else numOf r)
+  match s with
+  | '-' :: r => parseDigitsInt true r
+  | '+' :: r => parseDigitsInt false r
+  | _ => parseDigitsInt false s
 
 /-- value of `ip.fp × 10^e` -/
 def decValue (neg : Bool) (ip fp : Str) (e : Int) : Rat :=
   let m : Nat := numOf ip * 10 ^ fp.length + numOf fp
   let v : Rat := (m : Rat) / ((10 ^ fp.length : Nat) : Rat)
-  let v : Rat := if 0 ≤ e then v * ((10 ^ e.toNat : Nat) : Rat) else v / ((10 ^ (-e).toNat : Nat) : Rat)
+  let v : Rat := scale10 v e
   if neg then -v else v
 
 /-- optional exponent part -/
